@@ -20,10 +20,14 @@ Inductive obs :=
 | ONoValidId                       (* select.ErrNoValidId *)
 | OSelFound (i nrest : nat)        (* select.Resolve: entity i, number of remaining arguments *)
 | OUnknown                         (* an id that is not in the population *)
-| OOther.
+| OOther
+| OLocked (o : obs).               (* answered o, but the object handed out is an evicted instance: its first use blocks for ever *)
 
-(* the prefixes firstn k (base), k = from, from+1, ..., with the observations run-length encoded *)
-Record run := mkrun { r_api : api; r_base : base; r_tweak : tweak; r_from : nat; r_obs : list (obs * nat) }.
+(* the prefixes firstn k (base), k = from, from+1, ..., with the observations run-length encoded; r_cap is the bound on the
+   number of loaded entities (SetCacheSize) under which the questions were asked, 1000 being the default (a binary number:
+   a unary 1000 in every run doubles the time coqc needs to read the cases). Every object a
+   successful answer hands out is USED once (a read that takes its lock) under a watchdog *)
+Record run := mkrun { r_api : api; r_base : base; r_tweak : tweak; r_cap : N; r_from : nat; r_obs : list (obs * nat) }.
 
 Record case := mkccase {
   c_bugs : list (nid * list (nid * nid));   (* bug id; per comment of the snapshot: operation id, observed CombinedId *)
@@ -60,6 +64,7 @@ Fixpoint index_of (x : nid) (l : list nid) : nat :=
 Definition memn (x : nat) (l : list nat) := existsb (Nat.eqb x) l.
 Definition set_eqb (a b : list nat) : bool := forallb (fun x => memn x b) a && forallb (fun x => memn x a) b.
 
+(* the model never predicts OLocked: CommentLive.resolve_live / comment_handle_live, for every bound and cache content *)
 Definition obs_eqb (a b : obs) : bool :=
   match a, b with
   | OFound i, OFound j => Nat.eqb i j
@@ -144,19 +149,33 @@ Definition select_ok (c : case) (sel : seldesc) (nrest : nat) (pfx : nid) (o : o
   | [i] => match o with OSelFound j _ => Nat.eqb i j | _ => false end
   | m => match o with OMultiple l => set_eqb l m | _ => false end
   end.
-Definition obs_ok (c : case) (a : api) (pfx : nid) (o : obs) : bool :=
+Definition answer_ok (c : case) (a : api) (pfx : nid) (o : obs) : bool :=
   match a with
   | ABug | ABugExcerpt => entity_ok (bug_ids c) pfx o
   | AIdent | AIdentExcerpt => entity_ok (c_idents c) pfx o
   | AComment => comment_ok c pfx o
   | ASelect sel nrest => select_ok c sel nrest pfx o
   end.
+(* number of entities / comments the prefix addresses *)
+Definition n_targets (c : case) (a : api) (pfx : nid) : nat :=
+  match a with
+  | ABug | ABugExcerpt | ASelect _ _ => length (positions (pfxb pfx) 0 (bug_ids c))
+  | AIdent | AIdentExcerpt => length (positions (pfxb pfx) 0 (c_idents c))
+  | AComment => length (com_positions pfx 0 (c_bugs c))
+  end.
+Fixpoint strip (o : obs) : obs := match o with OLocked o' => strip o' | _ => o end.
+Definition is_locked (o : obs) : bool := match o with OLocked _ => true | _ => false end.
+(* "returns that entity" / "resolves to that comment and its bug": when the prefix identifies a single target, an object
+   that can never be used is not that entity. Elsewhere (no target, several) only the answer itself is judged *)
+Definition obs_ok (c : case) (a : api) (pfx : nid) (o : obs) : bool :=
+  if is_locked o then (if Nat.eqb (n_targets c a pfx) 1 then false else answer_ok c a pfx (strip o))
+  else answer_ok c a pfx o.
 Definition run_ok (c : case) (r : run) : bool :=
   forallb (fun ko => obs_ok c (r_api r) (prefix_at c r (fst ko)) (snd ko)) (expand (r_from r) (r_obs r)).
 Definition C13_ok (c : case) : bool := forallb (run_ok c) (c_runs c).
 Definition failing (cs : list case) : list nat := index_filter C13_ok 0 cs.
 
-(* --replay: (run position, prefix length, model's answer, implementation's answer, property verdict) where they differ
+(* --replay: (run position, bound on loaded entities, prefix length, model's answer, implementation's answer, property verdict) where they differ
    or the property is false *)
 Definition explain_run (c : case) (ri : nat * run) :=
   let r := snd ri in
@@ -164,6 +183,6 @@ Definition explain_run (c : case) (ri : nat * run) :=
     let pfx := prefix_at c r (fst ko) in
     let m := predict c (r_api r) pfx in
     let ok := obs_ok c (r_api r) pfx (snd ko) in
-    if obs_eqb m (snd ko) && ok then [] else [(fst ri, fst ko, m, snd ko, ok)]) (expand (r_from r) (r_obs r)).
+    if obs_eqb m (snd ko) && ok then [] else [(fst ri, r_cap r, fst ko, m, snd ko, ok)]) (expand (r_from r) (r_obs r)).
 Definition explain (c : case) :=
   (cids_agree c, firstn 6 (flat_map (explain_run c) (combine (seq 0 (length (c_runs c))) (c_runs c)))).
